@@ -79,7 +79,8 @@ def run(chk):
         cases, terms = [], []
         nprob = 0
         for i in range(250 if quick else 6000):
-            cx = T.Ctx(rng, docs=rng.random() < 0.8, spell=rng.random() < 0.85, styles=rng.random() < 0.5)
+            cx = T.Ctx(rng, docs=rng.random() < 0.8, spell=rng.random() < 0.85, styles=rng.random() < 0.5,
+                       idcase=rng.random() < 0.5)
             f = T.gen_file(cx, f"t{i % 7}.f90", [])
             events = T.render_file(cx, f)
             text = "\n".join(t for _, t in events if t is not None) + "\n"
